@@ -24,7 +24,8 @@ Reply fields:
               every declared p_*/halmos_* variable without a value gets 0.
     "format": "hex" | "bin" | "dec"      how model values are printed (#x.. / #b.. / (_ bvN w))
     "core":   "all" | "none" | "empty" | [ids] | k  for unsat ("none": no core line -> parse gives None; "empty": `()` -> []) when the query names assertions: ids to print in the unsat core
-              ("all" default; an int k = the first k names); "error_line": true adds the optional (error ...) line
+              ("all" default; an int k = the first k names); "error_line": true adds the optional (error ...) line;
+              "core_wrap": w prints w names per line (yices wraps at 20), "core_style": "cvc5" one name per line
     "stdout"/"stderr"/"returncode": override the raw output / exit code of any reply kind
     "delay_ms": sleep before replying;   "after": ["check_a/1", "check_a/2.refined"]: first wait until those queries
               have completed (their completion markers exist in "dir"), then sleep delay_ms — this fixes the completion
@@ -130,6 +131,17 @@ def _core(rule, text):
         sel = names[:c]
     else:
         sel = [x if str(x).startswith("<") else f"<{x}>" for x in c]
+    return format_core(sel, rule.get("core_wrap"), rule.get("core_style", "yices"))
+
+
+def format_core(sel, wrap=None, style="yices"):
+    """how solvers print `(get-unsat-core)`: z3 on one line; yices wraps after 20 names (continuation lines start with a
+    space); cvc5 prints one name per line between `(` and `)` lines"""
+    if style == "cvc5":
+        return "(\n" + "".join(f"{x}\n" for x in sel) + ")\n"
+    if wrap:
+        rows = [" ".join(sel[i:i + wrap]) for i in range(0, len(sel), wrap)] or [""]
+        return "(" + "\n ".join(rows) + ")\n"
     return "(" + " ".join(sel) + ")\n"
 
 
